@@ -107,10 +107,20 @@ type PNode struct {
 	Ref   AURL     `json:"ref"`
 	RefS  string   `json:"refs"` // the reference as written
 	Kids  []Kid    `json:"kids"`
+	Full  string   `json:"full"` // digest of the whole sub-document, normalised through its kind (C05)
 }
 
 type projector struct {
 	nodes []PNode
+	// full, when set, computes PNode.Full from the raw JSON value of a node and its kind
+	full func(kind string, v interface{}) string
+}
+
+func (p *projector) withFull(id int, kind string, v interface{}) int {
+	if p.full != nil && id > 0 {
+		p.nodes[id-1].Full = p.full(kind, v)
+	}
+	return id
 }
 
 func (p *projector) add(n PNode) int {
@@ -175,6 +185,10 @@ var schemaOnePos = []string{"not", "additionalProperties", "additionalItems"}
 
 // schema projects a JSON value found at a schema position.
 func (p *projector) schema(doc int, path []string, v interface{}) int {
+	return p.withFull(p.schema0(doc, path, v), "s", v)
+}
+
+func (p *projector) schema0(doc int, path []string, v interface{}) int {
 	m, ok := v.(map[string]interface{})
 	if !ok {
 		// not an object: a leaf whose label is the value itself
@@ -251,6 +265,10 @@ func (p *projector) schema(doc int, path []string, v interface{}) int {
 
 // paramOrResponse projects a parameter ("p") or response ("r") object.
 func (p *projector) paramOrResponse(doc int, path []string, kind string, v interface{}) int {
+	return p.withFull(p.paramOrResponse0(doc, path, kind, v), kind, v)
+}
+
+func (p *projector) paramOrResponse0(doc int, path []string, kind string, v interface{}) int {
 	m, ok := v.(map[string]interface{})
 	if !ok {
 		return p.add(PNode{Doc: doc, Path: path, Kind: kind, Lab: digest([]interface{}{"nonobject", v})})
@@ -281,6 +299,10 @@ func (p *projector) paramOrResponse(doc int, path []string, kind string, v inter
 var opNames = []string{"get", "put", "post", "delete", "options", "head", "patch"}
 
 func (p *projector) pathItem(doc int, path []string, v interface{}) int {
+	return p.withFull(p.pathItem0(doc, path, v), "i", v)
+}
+
+func (p *projector) pathItem0(doc int, path []string, v interface{}) int {
 	m, ok := v.(map[string]interface{})
 	if !ok {
 		return p.add(PNode{Doc: doc, Path: path, Kind: "i", Lab: digest([]interface{}{"nonobject", v})})
